@@ -112,6 +112,13 @@ pub mod sampled_parts {
                     assert!(matches!(res, Err(Error::OldDelta)), "a part of a finished transfer must be refused as old");
                     continue;
                 }
+                // C12: a message for a tick older than the newest one seen never completes, overwrites or corrupts a transfer --
+                // also when it is newer than the last completed tick and arrives in the middle of a transfer
+                if t.tick > i32::MIN {
+                    let stale = libtw2_gamenet_snap::SnapSingle { tick: t.tick - 1, delta_tick: 0, crc: 0, data: &[1, 2, 3] };
+                    let sr = r.snap_single(&mut warnings, stale).map(|o| o.is_some());
+                    assert!(matches!(sr, Err(Error::OldDelta)), "a message for an older tick was accepted during a transfer");
+                }
                 if seen[i] {
                     assert!(matches!(res, Err(Error::DuplicatePart)), "a repeated part must be refused as duplicate");
                     continue;
